@@ -1209,6 +1209,14 @@ def strip_model(eng, v, chars, side, st):
         chars = smt.PY_WS + "\x1c\x1d\x1e\x1f\x85\xa0"
     tag = smt.sha(side + ":" + "".join(sorted(set(chars))))[:8]
     s = to_term(v)
+    if side in ("lstrip", "strip"):
+        # ("    " ++ rest).lstrip() == rest.lstrip(): leading literal characters that are all stripped can be dropped first (valid for every rest)
+        sl = smt.split_literal_prefix(s)
+        if sl is not None and sl[0] and sl[1] and all(c in chars for c in sl[0]):
+            s = sl[1][0] if len(sl[1]) == 1 else z3.Concat(*sl[1])
+    ns = z3.Length(s)
+    first_kept = z3.Or(ns == 0, z3.Not(z3.InRe(smt.char_at(s, 0), smt.re_chars(chars))))
+    last_kept = z3.Or(ns == 0, z3.Not(z3.InRe(smt.char_at(s, ns - 1), smt.re_chars(chars))))
     mid = z3.Function("%s_%s" % (side, tag), S, S)(s)
     cs = smt.re_star_chars(chars)
     one = smt.re_chars(chars)
@@ -1222,16 +1230,20 @@ def strip_model(eng, v, chars, side, st):
         st.pc.append(z3.Or(n == 0, z3.Not(z3.InRe(smt.char_at(mid, 0), one))))
         st.pc.append(z3.Or(n == 0, z3.Not(z3.InRe(smt.char_at(mid, n - 1), one))))
         st.pc.append(z3.Or(n > 0, suf == z3.StringVal("")))  # canonical split when everything is stripped
+        st.pc.append(z3.Implies(first_kept, pre == z3.StringVal("")))  # nothing to strip at an end whose character is kept (consequences of the above, stated for the solver)
+        st.pc.append(z3.Implies(last_kept, suf == z3.StringVal("")))
     elif side == "lstrip":
         pre = z3.Function("lstrip_pre_%s" % tag, S, S)(s)
         st.pc.append(s == z3.Concat(pre, mid))
         st.pc.append(z3.InRe(pre, cs))
         st.pc.append(z3.Or(n == 0, z3.Not(z3.InRe(smt.char_at(mid, 0), one))))
+        st.pc.append(z3.Implies(first_kept, mid == s))
     else:
         suf = z3.Function("rstrip_suf_%s" % tag, S, S)(s)
         st.pc.append(s == z3.Concat(mid, suf))
         st.pc.append(z3.InRe(suf, cs))
         st.pc.append(z3.Or(n == 0, z3.Not(z3.InRe(smt.char_at(mid, n - 1), one))))
+        st.pc.append(z3.Implies(last_kept, mid == s))
     return Sym(mid, "str")
 
 
@@ -1367,6 +1379,18 @@ def str_method(eng, recv, name, args, kwargs, st):
         return ok(Sym(z3.IndexOf(s, to_term(sub), stt), "int"), st)
     if name == "partition":
         (sep,) = args
+        if isinstance(sep, str) and sep != "":
+            sl = smt.split_literal_prefix(s)
+            if sl is not None and sep in sl[0]:
+                # the first occurrence of the separator lies inside the literal head of the text: head and separator are literal, the tail is the rest of
+                # the literal followed by the symbolic remainder
+                k = sl[0].find(sep)
+                rest_lit = sl[0][k + len(sep):]
+                parts = ([z3.StringVal(rest_lit)] if rest_lit else []) + sl[1]
+                tail = "" if not parts else (parts[0] if len(parts) == 1 else z3.Concat(*parts))
+                if not isinstance(tail, str) and z3.is_string_value(tail):
+                    tail = tail.as_string()
+                return ok((sl[0][:k], sep, tail if isinstance(tail, str) else Sym(tail, "str")), st)
         sp = to_term(sep)
         k = z3.IndexOf(s, sp, 0)
         n = z3.Length(s)
